@@ -65,15 +65,19 @@ class CascadeChecker:
 
     @staticmethod
     def _verify_sig(pub_key_bits, sig_ptrs) -> bool:
-        if sig_ptrs.signature_info.signature_type == SignatureType.HMAC_WITH_SHA256:
-            verify_hmac(pub_key_bits, sig_ptrs)
-        elif sig_ptrs.signature_info.signature_type == SignatureType.SHA256_WITH_RSA:
-            pub_key = RSA.import_key(bytes(pub_key_bits))
-            return verify_rsa(pub_key, sig_ptrs)
-        elif sig_ptrs.signature_info.signature_type == SignatureType.SHA256_WITH_ECDSA:
-            pub_key = ECC.import_key(bytes(pub_key_bits))
-            return verify_ecdsa(pub_key, sig_ptrs)
-        else:
+        try:
+            if sig_ptrs.signature_info.signature_type == SignatureType.HMAC_WITH_SHA256:
+                verify_hmac(pub_key_bits, sig_ptrs)
+            elif sig_ptrs.signature_info.signature_type == SignatureType.SHA256_WITH_RSA:
+                pub_key = RSA.import_key(bytes(pub_key_bits))
+                return verify_rsa(pub_key, sig_ptrs)
+            elif sig_ptrs.signature_info.signature_type == SignatureType.SHA256_WITH_ECDSA:
+                pub_key = ECC.import_key(bytes(pub_key_bits))
+                return verify_ecdsa(pub_key, sig_ptrs)
+            else:
+                return False
+        except (ValueError, IndexError, TypeError):
+            # The key bits are not a key of the type the signature claims (or not a key at all)
             return False
 
     def __init__(self, app: NDNApp, trust_anchor: BinaryStr, storage: PublicKeyStorage | None = None):
